@@ -89,6 +89,21 @@ func C08(c *Ctx) {
 	for _, a := range handler.AnonFuncs {
 		fail = a
 	}
+	// the refusal closure built once when the middleware is constructed and
+	// captured by the request closure: a call through a captured variable that
+	// is bound to exactly one function literal
+	viaCapture := map[ssa.CallInstruction]bool{}
+	if fail == nil {
+		for _, call := range Calls(handler) {
+			if call.Common().IsInvoke() || StaticCallee(call) != nil {
+				continue
+			}
+			if fs := boundFuncs(call.Common().Value, 0); len(fs) == 1 && fs[0].Parent() != nil && pkgOf(fs[0]) == pkgOf(handler) {
+				fail = fs[0]
+				viaCapture[call] = true
+			}
+		}
+	}
 	// refusal modes: when the refusal is a closure of its own it is one outcome
 	// ("fail") and is decided separately; when it is written out in the handler
 	// (or in helpers inlined into it) the table gets one more dimension
@@ -146,6 +161,9 @@ func C08(c *Ctx) {
 			return "status?"
 		}
 		if mc, ok := cc.Value.(*ssa.MakeClosure); ok && fail != nil && mc.Fn == fail {
+			return "fail"
+		}
+		if viaCapture[call] {
 			return "fail"
 		}
 		if Callee(call) == fnRedirect {
